@@ -112,6 +112,10 @@ type pki struct {
 	CA1File, CA2File, BothFile, ForeignFile string
 	// the same CA certificates in other legal file layouts
 	CA1NoNLFile, PadCA1NoNLFile, BothCRLFFile string
+	// CA one after a key rotation: the SAME subject name, another key
+	ca1b                     *x509.Certificate
+	ca1bk                    crypto.Signer
+	CA1bFile, RotatedOneFile string
 }
 
 func pemFile(path, typ string, der []byte) {
@@ -149,6 +153,13 @@ func newPKI() *pki {
 		crlf := "# CA bundle\r\nsubject=verif CA one\r\n" + strings.ReplaceAll(string(pem1), "\n", "\r\n") + "\r\nBag Attributes: none\r\n" + strings.ReplaceAll(string(pem2), "\n", "\r\n")
 		os.WriteFile(p.BothCRLFFile, []byte(crlf), 0o600)
 	}
+	// key rotation of CA one: a second CA certificate with the identical subject and a new key, alone and in one file
+	// with the old one
+	p.ca1bk = fix.EC(384)
+	p.ca1b = mkca("verif CA one", 11, p.ca1bk)
+	p.CA1bFile, p.RotatedOneFile = filepath.Join(d, "ca1b.pem"), filepath.Join(d, "ca1-rotated.pem")
+	pemFile(p.CA1bFile, "CERTIFICATE", p.ca1b.Raw)
+	os.WriteFile(p.RotatedOneFile, append(pem.EncodeToMemory(&pem.Block{Type: "CERTIFICATE", Bytes: p.ca1.Raw}), pem.EncodeToMemory(&pem.Block{Type: "CERTIFICATE", Bytes: p.ca1b.Raw})...), 0o600)
 	// client certificate
 	ck := fix.EC(256)
 	ct := fix.X509Template("ysshra client", 10, now.Add(-time.Hour), now.Add(y), false)
@@ -173,6 +184,8 @@ func (p *pki) serverCert(identity, ip string) tls.Certificate {
 	switch identity {
 	case "ca2":
 		parent, pk = p.ca2, p.ca2k
+	case "ca1b":
+		parent, pk = p.ca1b, p.ca1bk
 	case "foreign":
 		parent, pk = p.foreign, p.foreignk
 	case "selfsigned":
